@@ -48,6 +48,8 @@ type Runner struct {
 	craftExtra     []*types.Transaction
 	craftNeeds     common.Hash
 	crafted        bool
+	craftAdversarial   bool
+	DoubleSpendRefused int // adversarial peer-style blocks (same-block output spent twice) the node refused to execute
 	SlotCalls      int // calls to the storage contract offered to the pool
 	Chained        int // blocks with a same-block chained Qi spend that were accepted
 }
@@ -468,12 +470,18 @@ func (r *Runner) MineOn(parent int, wantOrder int) (int, error) {
 		}
 		if has {
 			cw, err := r.craft(m.Blocks[mininet.Zone], r.craftExtra)
-			if err != nil {
+			if err != nil && !r.craftAdversarial {
 				return -1, fmt.Errorf("craft: %w", err)
 			}
-			m = &mininet.Mined{Order: mininet.Zone, Hash: cw.Hash()}
-			m.Blocks[mininet.Zone] = cw
-			r.crafted = true
+			if err != nil {
+				// the adversarial variant (two transactions spending the same same-block output) does not execute: as it must be;
+				// the worker's own block is mined instead
+				r.DoubleSpendRefused++
+			} else {
+				m = &mininet.Mined{Order: mininet.Zone, Hash: cw.Hash()}
+				m.Blocks[mininet.Zone] = cw
+				r.crafted = true
+			}
 		}
 	}
 	r.dbgAddrs("after-assemble", m.Blocks[mininet.Zone])
@@ -510,10 +518,15 @@ func (r *Runner) MineOn(parent int, wantOrder int) (int, error) {
 	a, b := entrySet(before), entrySet(after)
 	inputs := map[string]bool{}
 	madeHere := map[string]bool{} // outputs created by an earlier transaction of this very block (peer-made blocks may spend them)
+	named := map[string]int{}
 	for _, tx := range zb.Transactions() {
 		if tx.Type() == types.QiTxType {
 			for _, in := range tx.TxIn() {
 				key := fmt.Sprintf("%x:%d", in.PreviousOutPoint.TxHash[:], in.PreviousOutPoint.Index)
+				named[key]++
+				if named[key] == 2 {
+					r.Problems = append(r.Problems, Problem{"accepted-block-spends-output-twice", map[string]interface{}{"block": id, "outpoint": key, "created_in_same_block": madeHere[key]}})
+				}
 				if madeHere[key] {
 					if _, still := after.Utxos[key]; still {
 						r.Problems = append(r.Problems, Problem{"spent-output-still-present", map[string]interface{}{"block": id, "outpoint": key, "created_in_same_block": true}})
